@@ -26,7 +26,7 @@ RULE = ("Hypothesis RuleBasedStateMachine over one temporary results file: rule 
         "a repeated name and a matrix containing NaN; distinct = hash of the save history.")
 LEVEL_TEXT = ("Model-based stateful search over save histories with a dictionary model and a byte-level 'earlier entries unchanged' "
               "invariant, plus end-to-end command runs with a spy as ground truth. Exploration; no proof.")
-LEVEL_NOTE = "Trusted: Python's json module as the definition of 'JSON stringification'. Zero-step runs (empty matrices) are outside the statement."
+LEVEL_NOTE = "Three layers: save_json machine, full save() pipeline, CLI commands with a spy. Trusted: Python's json module as the definition of 'JSON stringification'. Zero-step runs (empty matrices) are outside the statement."
 TECHNIQUE = "property-based testing: Hypothesis rule-based state machine vs dictionary model (round trip + no-overwrite invariant), command-level differential with a recording spy"
 ASSUMPTIONS = ["matrices have at least one row and one column", "metadata keys are strings (they are argparse attribute names)"]
 
